@@ -5,7 +5,7 @@ namespace WD.Pipe
 
 /-- kernel watches, `_path_for_wd` and `_wd_for_path` are one bijection between watch descriptors and
     the directories that exist at or below the root, under their real current paths -/
-structure InvOn (cov : Ent → Prop) (fs : FS) (k : Kern) (lib : Lib) : Prop where
+structure InvOn (cov : Ent → Prop) (z : Option Nat) (fs : FS) (k : Kern) (lib : Lib) : Prop where
   wf : fs.WF
   isRec : lib.recursive = true
   kwd : (k.watches.map (·.1)).Nodup
@@ -14,19 +14,21 @@ structure InvOn (cov : Ent → Prop) (fs : FS) (k : Kern) (lib : Lib) : Prop whe
   good : ∀ w ∈ k.watches, ∃ e ∈ fs.ents, e.ino = w.2 ∧ inTreeDir e = true ∧
            lookupW lib.pathForWd w.1 = some e.path ∧ lookupP lib.wdForPath e.path = some w.1
   cover : ∀ e ∈ fs.ents, inTreeDir e = true → cov e → ∃ wd, (wd, e.ino) ∈ k.watches
-  pfwDom : ∀ wd p, lookupW lib.pathForWd wd = some p → ∃ ino, (wd, ino) ∈ k.watches
+  pfwDom : ∀ wd p, lookupW lib.pathForWd wd = some p → (∃ ino, (wd, ino) ∈ k.watches) ∨ z = some wd
+  zlt : ∀ w, z = some w → w < k.nextWd
+  zdead : ∀ w ∈ k.watches, z ≠ some w.1
   wfpInv : ∀ p wd, lookupP lib.wdForPath p = some wd → lookupW lib.pathForWd wd = some p
   wfpNodup : (lib.wdForPath.map (·.1)).Nodup
   pfwNodup : (lib.pathForWd.map (·.1)).Nodup
   cookies : ∀ x ∈ lib.movedFrom, x.1 < k.nextCookie
 
 /-- the invariant proper: every directory of the tree is covered (C02) -/
-abbrev InvRec (fs : FS) (k : Kern) (lib : Lib) : Prop := InvOn (fun _ => True) fs k lib
+abbrev InvRec (fs : FS) (k : Kern) (lib : Lib) : Prop := InvOn (fun _ => True) none fs k lib
 
-variable {fs : FS} {k : Kern} {lib : Lib} {cov : Ent → Prop}
+variable {fs : FS} {k : Kern} {lib : Lib} {cov : Ent → Prop} {z : Option Nat}
 
 /-- a covered in-tree directory is watched, and known under its path in both maps -/
-theorem InvOn.watched (inv : InvOn cov fs k lib) {e : Ent} (he : e ∈ fs.ents) (hd : inTreeDir e = true) (hc : cov e) :
+theorem InvOn.watched (inv : InvOn cov z fs k lib) {e : Ent} (he : e ∈ fs.ents) (hd : inTreeDir e = true) (hc : cov e) :
     ∃ wd, k.wdOfIno e.ino = some wd ∧ (wd, e.ino) ∈ k.watches ∧ lookupW lib.pathForWd wd = some e.path ∧
       lookupP lib.wdForPath e.path = some wd := by
   obtain ⟨wd, hw⟩ := inv.cover e he hd hc
@@ -36,7 +38,7 @@ theorem InvOn.watched (inv : InvOn cov fs k lib) {e : Ent} (he : e ∈ fs.ents) 
   exact ⟨wd, wdOfIno_of_mem inv.kino hw, hw, h1, h2⟩
 
 /-- nothing else is watched -/
-theorem InvOn.unwatched (inv : InvOn cov fs k lib) {e : Ent} (he : e ∈ fs.ents) (hd : inTreeDir e = false) :
+theorem InvOn.unwatched (inv : InvOn cov z fs k lib) {e : Ent} (he : e ∈ fs.ents) (hd : inTreeDir e = false) :
     k.wdOfIno e.ino = none := by
   rw [wdOfIno_none]
   intro w hw hi
@@ -45,21 +47,21 @@ theorem InvOn.unwatched (inv : InvOn cov fs k lib) {e : Ent} (he : e ∈ fs.ents
   subst this
   rw [hd] at hd'; cases hd'
 
-theorem InvOn.watch_ino_lt (inv : InvOn cov fs k lib) {w : Nat × Nat} (hw : w ∈ k.watches) : w.2 < fs.nextIno := by
+theorem InvOn.watch_ino_lt (inv : InvOn cov z fs k lib) {w : Nat × Nat} (hw : w ∈ k.watches) : w.2 < fs.nextIno := by
   obtain ⟨e', he', hi', _⟩ := inv.good w hw
   rw [← hi']; exact inv.wf.inoLt he'
 
-theorem InvOn.fresh_unwatched (inv : InvOn cov fs k lib) : k.wdOfIno fs.nextIno = none := by
+theorem InvOn.fresh_unwatched (inv : InvOn cov z fs k lib) : k.wdOfIno fs.nextIno = none := by
   rw [wdOfIno_none]
   intro w hw hi
   have := inv.watch_ino_lt hw
   omega
 
 /-- a key of `_wd_for_path` names an in-tree directory watched under that descriptor -/
-theorem InvOn.key_dir (inv : InvOn cov fs k lib) {p : P} {wd : Nat} (h : lookupP lib.wdForPath p = some wd) :
+theorem InvOn.key_dir (inv : InvOn cov none fs k lib) {p : P} {wd : Nat} (h : lookupP lib.wdForPath p = some wd) :
     ∃ e ∈ fs.ents, e.path = p ∧ inTreeDir e = true ∧ (wd, e.ino) ∈ k.watches := by
   have h1 := inv.wfpInv p wd h
-  obtain ⟨ino, hw⟩ := inv.pfwDom wd p h1
+  obtain ⟨ino, hw⟩ := (inv.pfwDom wd p h1).resolve_right (by simp)
   obtain ⟨e, he, hi, hd, h2, _⟩ := inv.good _ hw
   simp only at hi h2
   rw [h1] at h2
